@@ -16,6 +16,8 @@ an op that is not applicable in the current state is skipped, which keeps shrink
   ["react", ep, kind, ch, "s"|"b", size, salt]   arm a one-shot application handler that calls send() from INSIDE the next
                                       event of that kind (0 open, 1 close, 2 bufferedamountlow, 3 message of channel ch;
                                       4: the datachannel event, the send goes to the announced channel)
+  ["react2", ep, kind, ch, action]    like react, but the handler calls close() on a channel (["close", j]) or creates a channel
+                                      (["create", params]); not modelled by the automaton: oracle-only runs
   ["clock", ticks]                    advance the scripted clock (ticks of 1/1024 s)
   ["stop", ep]
   ["heal"]                            fault-free continuation until quiescent (C02)
@@ -191,6 +193,16 @@ class World:
             exc = ep.react(kind, 0 if kind == 4 else i, message(op[4], op[5], op[6]))
             self._after(name, ["react", kind, 0 if kind == 4 else i, op[4], op[5], op[6]], exc)
             return True
+        if k == "react2":
+            # ["react2", ep, kind, ch, ["close", j] | ["create", params]]: a handler that calls close() / creates a channel
+            # from inside the event. NOT part of the automaton: runs that contain it are judged by the oracles only.
+            kind, i = op[2], op[3]
+            if kind != 4 and i >= len(ep.channels):
+                return False
+            act = op[4]
+            exc = ep.react(kind, 0 if kind == 4 else i, (act[0], act[1]))
+            self._after(name, ["react2", kind, 0 if kind == 4 else i, act], exc)
+            return True
         raise ValueError("unknown op " + json.dumps(op))
 
     def run(self, ops=None):
@@ -255,6 +267,23 @@ def arm_reaction(rng, w, name, do):
         do(["threshold", name, i, rng.choice([0, 1, 10, 100, 1200])])
     w.salt += 1
     return do(["react", name, kind, i, rng.choice("sb"), rng.choice([0, 1, 10, 100, 1200, 3000]), w.salt])
+
+
+def arm_reaction2(rng, w, name, do):
+    """A handler that calls close() on some channel or creates a channel from inside an event (oracle-only runs)."""
+    ep = w.ep[name]
+    kind = rng.choice([0, 0, 1, 1, 2, 3, 4])
+    if kind != 4 and not ep.channels:
+        kind = 4
+    i = 0 if kind == 4 else rng.randrange(len(ep.channels))
+    if rng.random() < 0.5:
+        act = ["close", rng.randrange(8)]
+    else:
+        # (no negotiated channels here: they would have to be created on both sides)
+        p = rng.choice([dict(label="h", ordered=True), dict(label="hid", id=rng.choice([50, 52] if name == "B" else [51, 53]), ordered=True),
+                        dict(label="hpr", ordered=False, maxRetransmits=0)])
+        act = ["create", p]
+    return do(["react2", name, kind, i, act])
 
 
 def random_ops(rng, case, n_steps, profile, world=None):
